@@ -53,6 +53,12 @@ type Config struct {
 	Seed    int64  `json:"seed"`
 	Rep     int    `json:"rep"`
 	Race    bool   `json:"race_binary,omitempty"`
+	// Early != "": Stop is called right after `go Serve()` without waiting
+	// for the subscription (position 0 of the stream, K = 0): "nowait" |
+	// "gosched" (EarlyN x runtime.Gosched) | "sleep" (EarlyUs microseconds).
+	Early   string `json:"stop_at_serve_start,omitempty"`
+	EarlyN  int    `json:"early_yields,omitempty"`
+	EarlyUs int    `json:"early_sleep_us,omitempty"`
 }
 
 // Snap is a snapshot of the boundary counters.
@@ -94,6 +100,10 @@ type Result struct {
 	ServeMs      float64  `json:"serve_after_stop_ms"`
 	Timeline     []string `json:"timeline,omitempty"`
 	Restart      bool     `json:"restart,omitempty"` // the child must not run further scenarios
+	// early-Stop scenarios: subscriptions on the server connection when Stop
+	// was called (< wanted: Serve was certainly not yet parked on its quit channel)
+	EarlySubs int `json:"subs_at_early_stop"`
+	WantSubs  int `json:"subs_wanted"`
 }
 
 const (
@@ -182,6 +192,50 @@ type scen struct {
 	timeline []string
 
 	res *Result
+
+	// for the watchdog path
+	serveEntered, stopEntered atomic.Bool
+	stopReturned              atomic.Bool
+	afterIDs                  []uint64
+	afterFlushed              bool
+}
+
+// The goroutines that call Serve and Stop run through these named functions so
+// that the dump classifier recognises them even before they have a frame in
+// nats_server.go.
+//
+//go:noinline
+func c20ServeGoroutine(f func()) { f() }
+
+//go:noinline
+func c20StopGoroutine(f func()) { f() }
+
+// lateCheck: requests published (and double-flushed) after Stop had returned
+// must never be processed - independent of whether Serve ever returns.
+func (s *scen) lateCheck() {
+	if !s.afterFlushed {
+		return
+	}
+	var late []uint64
+	s.proc.mu.Lock()
+	for _, id := range s.afterIDs {
+		if s.proc.calls[id] > 0 {
+			late = append(late, id)
+		}
+	}
+	s.proc.mu.Unlock()
+	if len(late) == 0 {
+		return
+	}
+	n := len(late)
+	if len(late) > 24 {
+		late = late[:24]
+	}
+	s.tlMu.Lock()
+	tl := append([]string(nil), s.timeline...)
+	s.tlMu.Unlock()
+	s.violation("C20:processed-after-stop-returned", fmt.Sprintf("%d requests published after Stop had returned were processed", n),
+		map[string]interface{}{"ids": late, "counters": map[string]interface{}{"at_stop": s.res.AtStop, "at_stop_returned": s.res.AtStopRet, "now": s.snap()}, "timeline": tl})
 }
 
 func (s *scen) snap() Snap {
@@ -278,10 +332,19 @@ func (s *scen) hung(what string) *Result {
 	n := runtime.Stack(buf, true)
 	dump := string(buf[:n])
 	dead, why, excerpt := classifyDump(dump)
+	if dead && !(s.serveEntered.Load() && s.stopEntered.Load()) {
+		dead, why = false, "the goroutine calling Serve or Stop has not been scheduled yet"
+	}
 	s.res.Restart = true
 	s.mark("watchdog: " + what)
+	s.lateCheck()
 	if dead {
+		if s.stopReturned.Load() {
+			why = "after-Stop-returned:" + why
+		}
 		s.violation("C20:no-return:"+why, what+": no progress for "+watchdog.String()+" and the goroutine dump shows every goroutine of the server parked in nats_server.go on a channel/wait operation that no live goroutine can complete", map[string]interface{}{"goroutines": excerpt, "state": why})
+	}
+	if len(s.res.Violations) > 0 {
 		s.finish()
 		s.res.Timeline = append(s.res.Timeline, "dump-classification: "+why)
 		return s.res
@@ -350,31 +413,6 @@ func runScenario(ns *rig.NatsServer, c Config) (res *Result) {
 		WithRequestFinishedEventHandler(func(map[interface{}]interface{}) { s.finished.Add(1) }).
 		Build()
 
-	serveDone := make(chan struct{})
-	var serveErr error
-	var serveSnap Snap
-	var serveAt time.Time
-	go func() {
-		serveErr = server.Serve()
-		serveSnap = s.snap() // the instant Serve returns
-		serveAt = time.Now()
-		s.mark("Serve returned")
-		close(serveDone)
-	}()
-	if !s.awaitCond(func() bool { return srvConn.NumSubscriptions() >= wantSubs }, serveDone) {
-		select {
-		case <-serveDone:
-			return s.inconclusive("Serve returned before Stop: %v", serveErr)
-		default:
-		}
-		r := s.inconclusive("server did not subscribe")
-		r.Restart = true
-		return r
-	}
-	if err := flush(srvConn); err != nil {
-		return s.inconclusive("server conn flush: %v", err)
-	}
-
 	// ---- request plan -------------------------------------------------
 	class := map[uint64]int{}
 	oneway := map[uint64]bool{}
@@ -441,51 +479,8 @@ func runScenario(ns *rig.NatsServer, c Config) (res *Result) {
 		return flush(srvConn)
 	}
 
-	// ---- phase 1: k requests received before Stop ----------------------
-	switch c.Arrival {
-	case "trickle":
-		for _, id := range pre {
-			publish(id)
-			if err := dflush(); err != nil {
-				return s.inconclusive("flush: %v", err)
-			}
-		}
-	case "chunks":
-		for i := 0; i < len(pre); {
-			n := 1 + rng.Intn(1+len(pre)/3)
-			for j := 0; j < n && i < len(pre); j++ {
-				publish(pre[i])
-				i++
-			}
-			if err := dflush(); err != nil {
-				return s.inconclusive("flush: %v", err)
-			}
-		}
-	default:
-		for _, id := range pre {
-			publish(id)
-		}
-	}
-	if err := dflush(); err != nil {
-		return s.inconclusive("flush: %v", err)
-	}
-	if c.Dur == "gate" && c.K > 0 {
-		// handlers are parked on the gate: wait until the server is in the
-		// state "all workers busy, queue full, callback blocked" (or holds
-		// everything, if k is smaller than that)
-		wantStarted := int64(imin(c.K, c.W))
-		wantReceived := int64(imin(c.K, c.W+c.Q+1))
-		if !s.awaitCond(func() bool { return s.started.Load() >= wantStarted && s.received.Load() >= wantReceived }, serveDone) {
-			r := s.inconclusive("gate precondition (started>=%d received>=%d) not reached: %+v", wantStarted, wantReceived, s.snap())
-			r.Restart = true
-			return r
-		}
-	}
-	if c.StopUs > 0 {
-		time.Sleep(time.Duration(c.StopUs) * time.Microsecond)
-	}
-
-	// ---- Stop ----------------------------------------------------------
+	// ---- goroutines that wait for the Stop call (created before Serve is
+	// launched so that an early Stop is not delayed by them) ---------------
 	stopCalled := make(chan struct{})
 	stopDone := make(chan struct{})
 	duringDone := make(chan struct{})
@@ -509,18 +504,119 @@ func runScenario(ns *rig.NatsServer, c Config) (res *Result) {
 		}
 		openGate()
 	}()
-	s.res.AtStop = s.snap()
-	s.res.QueueFull = s.res.AtStop.Received-s.res.AtStop.Started >= int64(c.Q)
-	s.mark("Stop called")
-	stopAt := time.Now()
-	close(stopCalled)
-	go func() {
+	s.res.EarlySubs, s.res.WantSubs = -1, wantSubs
+	callStop := func() {
+		if c.Early != "" {
+			s.res.EarlySubs = srvConn.NumSubscriptions()
+		}
+		s.stopEntered.Store(true)
 		stopErr = server.Stop()
+		s.stopReturned.Store(true)
 		stopSnap = s.snap()
 		stopRetAt = time.Now()
 		s.mark("Stop returned")
 		close(stopDone)
-	}()
+	}
+
+	// ---- Serve ------------------------------------------------------------
+	serveDone := make(chan struct{})
+	var serveErr error
+	var serveSnap Snap
+	var serveAt time.Time
+	var stopAt time.Time
+	go c20ServeGoroutine(func() {
+		s.serveEntered.Store(true)
+		serveErr = server.Serve()
+		serveSnap = s.snap() // the instant Serve returns
+		serveAt = time.Now()
+		s.mark("Serve returned")
+		close(serveDone)
+	})
+	if c.Early != "" {
+		// Stop at position 0 of the stream, racing the start of Serve: no wait
+		// for the subscription; tiny yields so that both orders of "Serve
+		// parked on its quit channel" and "Stop called" occur.
+		switch c.Early {
+		case "gosched":
+			for i := 0; i < c.EarlyN; i++ {
+				runtime.Gosched()
+			}
+		case "sleep":
+			time.Sleep(time.Duration(c.EarlyUs) * time.Microsecond)
+		}
+		stopAt = time.Now()
+		go c20StopGoroutine(callStop)
+		close(stopCalled)
+		s.mark("Stop called right after go Serve()")
+	} else {
+		if !s.awaitCond(func() bool { return srvConn.NumSubscriptions() >= wantSubs }, serveDone) {
+			select {
+			case <-serveDone:
+				return s.inconclusive("Serve returned before Stop: %v", serveErr)
+			default:
+			}
+			r := s.inconclusive("server did not subscribe")
+			r.Restart = true
+			return r
+		}
+		if err := flush(srvConn); err != nil {
+			return s.inconclusive("server conn flush: %v", err)
+		}
+	}
+
+	if c.Early == "" {
+		// ---- phase 1: k requests received before Stop ----------------------
+		switch c.Arrival {
+		case "trickle":
+			for _, id := range pre {
+				publish(id)
+				if err := dflush(); err != nil {
+					return s.inconclusive("flush: %v", err)
+				}
+			}
+		case "chunks":
+			for i := 0; i < len(pre); {
+				n := 1 + rng.Intn(1+len(pre)/3)
+				for j := 0; j < n && i < len(pre); j++ {
+					publish(pre[i])
+					i++
+				}
+				if err := dflush(); err != nil {
+					return s.inconclusive("flush: %v", err)
+				}
+			}
+		default:
+			for _, id := range pre {
+				publish(id)
+			}
+		}
+		if err := dflush(); err != nil {
+			return s.inconclusive("flush: %v", err)
+		}
+		if c.Dur == "gate" && c.K > 0 {
+			// handlers are parked on the gate: wait until the server is in the
+			// state "all workers busy, queue full, callback blocked" (or holds
+			// everything, if k is smaller than that)
+			wantStarted := int64(imin(c.K, c.W))
+			wantReceived := int64(imin(c.K, c.W+c.Q+1))
+			if !s.awaitCond(func() bool { return s.started.Load() >= wantStarted && s.received.Load() >= wantReceived }, serveDone) {
+				r := s.inconclusive("gate precondition (started>=%d received>=%d) not reached: %+v", wantStarted, wantReceived, s.snap())
+				r.Restart = true
+				return r
+			}
+		}
+		if c.StopUs > 0 {
+			time.Sleep(time.Duration(c.StopUs) * time.Microsecond)
+		}
+
+		// ---- Stop ----------------------------------------------------------
+		s.res.AtStop = s.snap()
+		s.res.QueueFull = s.res.AtStop.Received-s.res.AtStop.Started >= int64(c.Q)
+		s.mark("Stop called")
+		stopAt = time.Now()
+		close(stopCalled)
+		go c20StopGoroutine(callStop)
+	}
 	if !s.await(stopDone) {
 		return s.hung("Stop did not return")
 	}
@@ -528,6 +624,7 @@ func runScenario(ns *rig.NatsServer, c Config) (res *Result) {
 	s.res.StopMs = float64(stopRetAt.Sub(stopAt).Microseconds()) / 1000
 
 	// ---- phase 3: requests arriving after Stop has returned -------------
+	s.afterIDs = after
 	for _, id := range after {
 		publish(id)
 	}
@@ -537,6 +634,7 @@ func runScenario(ns *rig.NatsServer, c Config) (res *Result) {
 	if err := dflush(); err != nil {
 		return s.inconclusive("flush after Stop: %v", err)
 	}
+	s.afterFlushed = true
 	s.mark("after-Stop requests flushed")
 
 	if !s.await(serveDone) {
